@@ -9,6 +9,11 @@ Static clauses decided (necessary conditions of C05):
          cached_): when a function looks a value up under key K and later stores the computed value, the store uses the
          same key expression and no variable occurring in K is reassigned on a path between the lookup and the store
          (otherwise the entry is filed under a different key than it is asked for, and another input is served it).
+ SHAPE   one key, one tree: the code key handed to Query(...) / create_extractors(...) identifies the syntax tree that the
+         extractor and translator caches store under it.  A call site that passes a tree it *constructed itself* around the
+         decompiled one (EntityMeta._query_from_args_ wraps a lambda body into a generator expression) must not pass the bare key
+         of the inner tree (id(code) / the source string), because filter()/where()/order_by() file the unwrapped body of the
+         same lambda under that key: the second user would be served a tree of the wrong shape.
  PIN     a cache key built from id(<code object>) is only sound while the code object is alive: every function that
          builds such a key also passes the same function/generator to decompile()/get_lambda_args(), whose
          get_codeobject_id stores a strong reference; decompile() keys ast_cache by get_codeobject_id, not id().
@@ -64,6 +69,7 @@ def run(ctx):
     pin_rule(ctx)
     fixed_rule(ctx)
     embedded_rule(ctx)
+    shape_rule(ctx)
     alias_rule(ctx)
     from . import C10
     C10.run(ctx, P='C05-FRESH', cache_only=True)
@@ -318,6 +324,29 @@ def fixed_rule(ctx, prefix='C05-FIXED'):
                '' if ok else 'construct_sql_ast(... %s ...) shapes the SQL but %s is not part of sql_key' % (norm(a), norm(a)), node=a)
 
 
+def shape_rule(ctx):
+    repo = ctx.repo
+    n = 0
+    for fn in repo.rule_funcs():
+        if fn.mod.name != 'pony.orm.core': continue
+        for c in calls_in(fn.node):
+            if not (isinstance(c.func, ast.Name) and c.func.id in ('Query', 'create_extractors') and len(c.args) >= 2): continue
+            key, tree = c.args[0], c.args[1]
+            if not isinstance(tree, ast.Name): continue
+            tdefs = [st.value for st in walk_no_nested(fn.node) if isinstance(st, ast.Assign) and any(dotted(t) == tree.id for t in st.targets)]
+            constructed = [v for v in tdefs if isinstance(v, ast.Call) and (dotted(v.func) or '').startswith('ast.')]
+            if not constructed: continue
+            n += 1
+            kdefs = [st.value for st in walk_no_nested(fn.node) if isinstance(st, ast.Assign) and isinstance(key, ast.Name) and any(dotted(t) == key.id for t in st.targets)]
+            last = kdefs[-1] if kdefs else key
+            ok = isinstance(last, ast.Tuple) and len(last.elts) >= 2 and any(isinstance(e, ast.Constant) for e in last.elts)
+            ctx.ob('C05-SHAPE.constructed-tree-has-its-own-key', fn, c, ok,
+                   '' if ok else '%s passes a tree it built itself (`%s`) under the key `%s`, the key of the tree it wrapped: filter()/where()/order_by() store the bare '
+                   'lambda body under the same key in extractors_cache, so whichever use comes second is served the other\'s tree (AttributeError / KeyError, or a '
+                   'wrong translation)' % (fn.qual, norm(constructed[-1])[:80], norm(last)), node=c, expected='a key distinct from the inner tree\'s key, e.g. (code_key, <marker>)')
+    ctx.floor('C05-SHAPE', n, 1, 'Query/create_extractors call sites passing a constructed tree')
+
+
 def embedded_rule(ctx, prefix='C05-FIXED'):
     """a query used inside another query is translated into the outer translator as a deep copy of its own translator: the parameter
     values that copy has baked in must become staleness inputs of the OUTER cached translator as well"""
@@ -411,6 +440,7 @@ def alias_rule(ctx):
 
 
 MUTANTS = [
+    dict(id='C05-sh1', file='pony/orm/core.py', fn='EntityMeta._query_from_args_', old="        code_key = code_key, 'query_from_lambda'\n", new="", expect='C05-SHAPE'),
     dict(id='C05-e1', file='pony/orm/sqltranslation.py', fn='SQLTranslator.dispatch_external', old="            translator.root_translator.fixed_param_values.update(prev_translator.fixed_param_values)\n", new="", expect='C05-FIXED.embedded'),
     dict(id='C05-e2', file='pony/orm/core.py', fn='Query.delete', old="        sql_key = HashableDict(query._key, vartypes=HashableDict(translator.vartypes),\n                               fixed_param_values=HashableDict(translator.fixed_param_values), sql_command='DELETE')", new="        sql_key = HashableDict(query._key, sql_command='DELETE')", expect='C05-FIXED.staleness'),
     dict(id='C05-f1', file='pony/orm/core.py', fn='SessionCache.flush', old="                    cache.query_results.clear()\n                    modified_m2m = cache._calc_modified_m2m()", new="                    modified_m2m = cache._calc_modified_m2m()", expect='C05-FRESH'),
